@@ -6,9 +6,9 @@ open FpVerif FpVerif.Sexp FpVerif.Fut
 structure World where
   net : Net
   nsrc : Nat
-  defs : List Pid
+  defs : List Nat
 
-def hOf (w : World) : Sexp → Option Pid
+def hOf (w : World) : Sexp → Option Nat
   | .list [.atom "s", i] => i.asNat?
   | .list [.atom "d", j] => do w.defs[(← j.asNat?)]?
   | _ => none
@@ -72,7 +72,7 @@ def appendSeq (xs x : Val) : Val :=
   | o => o
 
 /-- `LiftAN(f)(ins…)` of future/func_gen.go: `FlatMap(ins1, a1 => LiftA(N-1)(f a1)(ins2…))`, bottoming out in `Map2`/`Map` -/
-def liftAList : List Pid → (List Val → W Val) → FExpr
+def liftAList : List Nat → (List Val → W Val) → FExpr
   | [], f => let (r, evs) := f []; .logged evs (.successful r)
   | p :: ps, f => .flatMap (.ref p) (fun v => liftAList ps (fun rest => f (v :: rest)))
 
